@@ -96,7 +96,18 @@ def build(bt, spec, algos_for=None):
     """Construct the real tree.  algos_for(path) -> list of algos for bt.Strategy nodes (engine driver)."""
     core = bt.core
 
+    templates = {}
+
     def mk_sec(s):
+        if spec.get("share_templates"):
+            # one node object per distinct declaration, handed to every constructor that declares it (a template)
+            key = (s["cls"], s["name"], s["mult"], s["decl"], s.get("fi_flag"))
+            if key not in templates:
+                templates[key] = mk_sec_new(s)
+            return templates[key]
+        return mk_sec_new(s)
+
+    def mk_sec_new(s):
         cls = getattr(core, s["cls"])
         if "fi_flag" in s:
             # the documented constructor flag of the coupon-paying classes: notional = market value instead of par
